@@ -60,7 +60,7 @@ def check_cell(acc, lib, segmap, f, seg, S, r, idset=None):
             return None
     except Exception as e:  # the statement: every cell with r in 0..MAX_RESOLUTION encodes
         msg = str(e)
-        acc.violation(f'enc-raises:r={r}:{type(e).__name__}:{msg}' if r == 30 else f'enc-raises:r={r}:f={f}:seg={seg}:S={S}',
+        acc.violation('enc-raises:r=30' if r == 30 else f'enc-raises:r={r}:f={f}:seg={seg}:S={S}',
                       f'serialize(face={f}, segment={seg}, S={S}, resolution={r}) raised {type(e).__name__}({msg})', case)
         return None
     acc.n['transitions'] += 1
